@@ -5,6 +5,7 @@
 (*   "pair"        two annotations that must behave identically (W(T) vs T) give  *)
 (*                 the same outcome on the same input                             *)
 (*   "level"       one nesting level of a recursive value: converted, conforming  *)
+(*   "levels"      every nesting level of one recursive value, as one flag each   *)
 EXTENDS Terms, IOUtils
 
 Log == ndJsonDeserialize(IOEnv.TRACE_FILE)
@@ -26,6 +27,10 @@ Clause(e) ==
           ELSE IF ~e.converted THEN "Recursive.levelPassedThroughRaw"
           ELSE IF e.check = "conf" /\ Conf(e.T, e.out.r, Defs, "Conforms", FALSE) # "" THEN "Recursive.levelNotConforming"
           ELSE "")
+    \* all nesting levels of one recursive value in one event: flags[i] = level i-1 has the right class and converted scalars
+    [] e.ev = "levels" ->
+         (IF \E i \in 1..Len(e.flags) : ~e.flags[i] THEN "Recursive.levelPassedThroughRaw"
+          ELSE IF ~e.reach THEN "Recursive.levelPassedThroughRaw" ELSE "")
     [] e.ev = "build" ->
          (IF e.out.k = "raised" THEN "Build.raised." \o e.out.e
           ELSE IF ~e.passthrough THEN "Build.unresolvablePositionNotPassThrough"
